@@ -265,6 +265,12 @@ func driveHelpers(t *Tracer, r Rng, n int) {
 			if zero(a) || zero(b) {
 				continue
 			}
+			if r.Chance(0.2) { // almost parallel: a turn of 1e-9 .. 1e-4 rad (successive headings along a smooth track)
+				m := r.Pick(1000000, 10000000, 100000000)
+				a = []int64{a[0] * m, a[1] * m, a[2] * m}
+				b = append([]int64(nil), a...)
+				b[r.Intn(3)] += r.Pick(1, 7, 50, 300, 2000, 5000, 20000, r.In(1, 30000))
+			}
 			// stay away from the ill-conditioned almost-opposite zone unless exactly opposite
 			ua, ub := v3(a).Unit(), v3(b).Unit()
 			if c := ua.Dot(ub); c < -0.98 && ua.Cross(ub).Norm() > 1e-9 {
